@@ -6,6 +6,7 @@ package pilosa
 import (
 	"context"
 	"fmt"
+	"os"
 	"sort"
 	"testing"
 
@@ -63,6 +64,7 @@ func (c *vC11Client) ImportRoaring(ctx context.Context, uri *URI, index, field s
 // must tell node1 to clear (0,1) in view "2019" (= standard_2019); it used the key "" (standard view).
 func TestVerifWitness_D13(t *testing.T) {
 	c := NewTestCluster(3)
+	defer os.RemoveAll(c.Path)
 	c.ReplicaN = 3
 	cl := &vC11Client{remote: map[string]vC11PosSet{
 		c.nodes[1].URI.String(): {{0, 1}: true},
